@@ -78,7 +78,7 @@ def case_of(text, chrom_order, root, flip, by_chrom=True):
     return {"gfa": text, "chromosome_order": chrom_order, "root": root, "flip": flip, "by_chrom": by_chrom}
 
 
-def judge_run(res, scratch, text, chains, chrom_order, root, flip, what, base_map=None, base_text=None, by_chrom=False):
+def judge_run(res, scratch, text, chains, chrom_order, root, flip, what, base_map=None, base_text=None, by_chrom=False, model_text=None):
     """run order_gfa, judge every requested chromosome, return the (node -> BO,NO) map or None"""
     run = oc.run_order(scratch, text, chrom_order, by_chrom=by_chrom, root=root, flip=flip)
     res.evaluations += 1
@@ -86,6 +86,8 @@ def judge_run(res, scratch, text, chains, chrom_order, root, flip, what, base_ma
 
     case = case_of(text, chrom_order, root, flip, by_chrom)
     case["hashseed"] = int(os.environ.get("PYTHONHASHSEED", "0"))
+    if model_text is not None:
+        case["model_gfa"] = model_text  # the graph the expectation is computed from (the input proper lacks tags the model needs)
     if base_map is not None:
         case["base_gfa"] = base_text if base_text is not None else text
     def is_single(c):
@@ -164,7 +166,8 @@ def single_chain(res, scratch, spec, decl):
 
 def multi_chrom(res, scratch, tier):
     firsts = [["snp"], ["insertion", "link"], ["nested"], []]
-    second = gen.Chain(["deletion"], chrom="chr2", id_base=40, hap="hB#1#c", decl="rev")
+    # the second chromosome is a PanSN name whose last field is the first chromosome's name
+    second = gen.Chain(["deletion"], chrom="HG002#2#chr1", id_base=40, hap="hB#1#c", decl="rev")
     third = gen.Chain(["triallelic"], chrom="hg38:chrX", id_base=70, hap="hC#1#c", decl="alt", ends=("open", "tip"))
     class OneNode:
         """a chromosome that is a single segment (e.g. chrM): one chain element, a scaffold node"""
@@ -196,6 +199,10 @@ def multi_chrom(res, scratch, tier):
             lines = g.lines()
             t = "".join(lines[i] + "\n" for i in list(range(len(lines)))[::-1])
             judge_run(res, scratch, t, chains, ",".join(names), None, False, "multi-chromosome, reversed line order")
+            # the same graph without SR tags (the guide asks for SN and SO only)
+            import re as _re
+
+            judge_run(res, scratch, _re.sub(r"\tSR:i:\d+", "", g.text()), chains, ",".join(names), None, False, "multi-chromosome, no SR tags", model_text=g.text())
             # L lines first, S lines after them, and no newline after the last (S) line
             t2 = "".join(x + "\n" for x in [l for l in lines if l.startswith("L")] + [l for l in lines if not l.startswith("L")])[:-1]
             judge_run(res, scratch, t2, chains, ",".join(names), None, False, "multi-chromosome, L lines first, no final newline")
@@ -263,7 +270,7 @@ def multi_chrom(res, scratch, tier):
                 res.fail("C06/default-chromosome-order", f"default chromosome order: the BO range of {c.chrom} {(min(bos), max(bos))} does not follow that of {prev[0]} (..{prev[1]}); documented order chr1..chr22, chrX, chrY, chrM", case25)
                 break
             prev = (c.chrom, max(bos))
-    res.sample({"chromosomes": ["chr1", "chr2", "chrX"], "chain_chr1": firsts[1], "requests": ["chr1", "chr2,chr1", "chrX,chr1,chr2", "(default order on 25 chromosomes)"]})
+    res.sample({"chromosomes": ["chr1", "HG002#2#chr1", "hg38:chrX", "chrM"], "chain_chr1": firsts[1], "requests": ["chr1", "chr2,chr1", "chrX,chr1,chr2", "(default order on 25 chromosomes)"]})
 
 
 def run_shard(spec, tier, scratch):
@@ -287,7 +294,7 @@ def run_shard(spec, tier, scratch):
 
 def replay(case, scratch):
     res = fw.ShardResult()
-    g = rgfa.Graph.parse(case["gfa"])
+    g = rgfa.Graph.parse(case.get("model_gfa") or case["gfa"])
     if case["chromosome_order"] == "" or case.get("after_run_with_order"):
         multi_chrom(res, scratch, "quick")
         return [f for f in res.failures if f["case"].get("chromosome_order") == "" or f["case"].get("after_run_with_order")]
